@@ -95,7 +95,15 @@ class Check(PropertyCheck):
             second = list(c)
             if len(first) != 4 or len(second) != 4:
                 res.append(("iteration", "iterating (twice) did not yield iteration_limit instances each time"))
-            all_names = [pre.name] + [i.name for i in first + second] + [c.generate().name]
+            # explicit sizes (both, or only one) are instances of the same generator like any other
+            nj, nm = kw["num_jobs"][1], kw["num_machines"][0]
+            sized = [c.generate(num_jobs=nj, num_machines=nm), c.generate(num_jobs=nj), c.generate(num_machines=nm),
+                     c.generate(num_jobs=nj, num_machines=nm)]
+            if (len(sized[0].jobs), len(sized[0].jobs[0])) != (nj, nm) or len(sized[1].jobs) != nj or \
+                    len(sized[2].jobs[0]) != nm:
+                res.append(("explicit-size", f"generate(num_jobs={nj}, num_machines={nm}) returned "
+                            f"{len(sized[0].jobs)} jobs x {len(sized[0].jobs[0])} operations"))
+            all_names = [pre.name] + [i.name for i in first + second] + [i.name for i in sized] + [c.generate().name]
             if len(set(all_names)) != len(all_names):
                 res.append(("names", f"one generator reused names across generate() and two iterations: {all_names}"))
             names = [i.name for i in la]
